@@ -9,7 +9,7 @@
    records of the cache, no route whose origin AS follows from the "local AS" rule.  Clean = FALSE generates everything. *)
 EXTENDS Rpki, RpkiDom, Json
 
-CONSTANTS MaxSteps, Clean
+CONSTANTS MaxSteps, Clean, Focus      \* Focus: "wide" | "twin"
 
 VARIABLES hist, pool, rsid
 gvars == <<ps, ms, tbl, hist, pool, rsid>>
@@ -18,13 +18,18 @@ Sids == {1, 2}
 
 (* a small pool of records per history, so that duplicates, re-announcements and withdrawals of
    known records are frequent; both families, equal prefixes with different max length / AS *)
-PickPool == LET a == RandomElement(AllRecords)
+(* "twin" histories (one in three): a pool of at most two records of one bucket, so that both caches
+   hold the SAME record, announce it again (inside one response and in later incremental ones),
+   withdraw it in turn, and are reset / reloaded with duplicates in flight *)
+TwinPool == LET a == RandomElement(AllRecords) IN {a, RandomElement({x \in AllRecords : x.p = a.p})}
+WidePool == LET a == RandomElement(AllRecords)
                 b == RandomElement({x \in AllRecords : x.p = a.p})
                 c == RandomElement(AllRecords)
                 d == RandomElement(Records6)
                 e == RandomElement(Records4)
             IN {a, b, c, d, e} \cup (IF Clean THEN {} ELSE {RandomElement({Rec("10.1.0.0/16", 16, LocalAS),
                                                                              Rec("2001:db8::/32", 48, LocalAS)})})
+PickPool == IF Focus = "twin" \/ RandomElement(1..3) = 1 THEN TwinPool ELSE WidePool
 
 GenInit == /\ Init
            /\ hist = <<>>
@@ -69,7 +74,7 @@ GEod(c) == /\ InResp(c)
                 Eod(c, rsid[c], sn) /\ Log([ev |-> "Eod", c |-> c, sid |-> rsid[c], sn |-> sn])
            /\ Keep
 GNotify(c) == /\ IdleConn(c)
-              /\ \E sn \in {RandomElement(0..4)} :
+              /\ \E sn \in {IF Focus = "twin" /\ Dice(7) THEN ms[c].serial + 1 ELSE RandomElement(0..4)} :
                    Notify(c, sn, QNotify(ms[c], sn)) /\ Log([ev |-> "Notify", c |-> c, sid |-> ps[c].psid, sn |-> sn])
               /\ Keep
 GCacheReset(c) == /\ IdleConn(c) /\ (IF ps[c].cq = <<>> THEN TRUE ELSE Head(ps[c].cq) = "serial")
@@ -82,7 +87,23 @@ GInject == /\ \E c \in Caches : ms[c].cfg
 
 Busy(c) == ms[c].cfg /\ (ps[c].phase = "resp" \/ ps[c].cq # <<>>)
 
-GenNext ==
+(* Focus = "twin": two caches, one bucket, at most two records: full and incremental responses
+   with repeated announcements and withdrawals, and now and then a session / serial reset *)
+TwinNext ==
+  /\ Len(hist) < MaxSteps
+  /\ \/ \E c \in Caches :
+          \/ GAdd(c)
+          \/ GResp(c)
+          \/ GAnn(c)
+          \/ (Dice(6) /\ GAnn(c))
+          \/ (Dice(5) /\ GWd(c))
+          \/ (Dice(5) /\ GEod(c))
+          \/ (~Busy(c) /\ GNotify(c))
+          \/ (~Busy(c) /\ Dice(1) /\ (GCacheReset(c) \/ GBounce(c) \/ GReset(c) \/ GSoft(c) \/ GEnable(c) \/ GDel(c)))
+          \/ (Busy(c) /\ Dice(1) /\ Dice(3) /\ (GBounce(c) \/ GSoft(c) \/ GEnable(c)))
+     \/ (Dice(2) /\ GInject)
+
+WideNext ==
   /\ Len(hist) < MaxSteps
   /\ \/ \E c \in Caches :
           \/ GAdd(c)
@@ -105,8 +126,9 @@ GenNext ==
           \/ (Busy(c) /\ Dice(1) /\ (GBounce(c) \/ GReset(c) \/ GSoft(c) \/ GEnable(c) \/ GCacheReset(c)))
      \/ (Dice(6) /\ GInject)
 
+GenNext == IF Focus = "twin" THEN TwinNext ELSE WideNext
 GenSpec == GenInit /\ [][GenNext]_gvars
 
 Emit == Len(hist) = MaxSteps =>
-          PrintT("VPOUT " \o ToJson([clean |-> Clean, routes |-> RouteTable, steps |-> hist]))
+          PrintT("VPOUT " \o ToJson([clean |-> Clean, focus |-> Focus, routes |-> RouteTable, steps |-> hist]))
 =============================================================================
